@@ -54,7 +54,9 @@ class Sim:
                 if is_ctor:
                     self.state[name] = ("null",) if fld.get("init") is not None else ("uninit",)
                 else:
-                    self.state[name] = self.other_ptr(name, "this") if same else ("addr", "this", selfptrs[name])
+                    # the destination of an assignment may itself have been pointed at a caller's map before (a different one)
+                    prior = ("ext_prior", name) if scenario.get("this_ptr", {}).get(name) == "ext" else ("addr", "this", selfptrs[name])
+                    self.state[name] = self.other_ptr(name, "this") if same else prior
             elif name in owning:
                 if is_ctor:
                     self.state[name] = ("uptr", ("null",))
